@@ -1,0 +1,47 @@
+//go:build verif
+
+// Contracts for contract-based deductive verification (checked by /verif/govc).
+// This file is comment-only and compiled only with the build tag "verif".
+
+package cpuallocator
+
+// ---- the sysfs.System the allocator reads (T4: hardware well-formedness is assumed, see DESIGN.md) ----------
+//@ pure sysOffline(s sysfs.System) cpuset.CPUSet
+//@ iface github.com/containers/nri-plugins/pkg/sysfs.System.Offlined
+//@   ensures result == sysOffline(self)
+//@ iface github.com/containers/nri-plugins/pkg/sysfs.System.OfflineCPUs
+//@   ensures result == sysOffline(self)
+
+// Options only set the preference fields of the helper (type-level contract; the two options are proved against it).
+//@ functype Option
+//@   requires arg0 != nil
+//@   modifies arg0.prefer, arg0.flags
+//@ func WithPriority$1 tags=C08
+//@   requires a != nil
+//@   modifies a.prefer
+//@ func WithAllocFlags$1 tags=C08
+//@   requires a != nil
+//@   modifies a.flags
+
+// ---- bookkeeping of one allocation: result and from partition the original candidate set -------------------
+//@ pure part(a *allocatorHelper) cpuset.CPUSet = a.result.Union(a.from)
+//@ pure wfh(a *allocatorHelper) bool = a != nil && a.result.Intersection(a.from).IsEmpty() && a.cnt >= 0
+
+// allocate(): on success exactly the CPUs taken out of a.from; the stages below are proved to keep
+// result/from a partition of the original set and cnt + |result| constant.
+//@ func (*allocatorHelper).allocate
+//@   requires wfh(a) && a.result.IsEmpty()
+//@   modifies a.result, a.from, a.cnt
+//@   ensures[C08] a.result.Union(a.from).Equals(old(a.from)) && a.result.Intersection(a.from).IsEmpty()
+//@   ensures[C08] a.cnt >= 0 && a.cnt + a.result.Size() == old(a.cnt)
+//@   ensures[C08] a.cnt == 0 ==> result.Equals(a.result)
+//@   ensures[C08] a.cnt != 0 ==> result.IsEmpty()
+
+//@ func (*cpuAllocator).AllocateCpus
+//@   requires ca != nil && from != nil && cnt >= 0
+//@   let F0 = *from
+//@   modifies *from
+//@   ensures[C08] cnt > F0.Size() ==> result1 != nil && (*from).Equals(F0)
+//@   ensures[C08] cnt <= F0.Size() && result1 == nil ==> result0.Size() == cnt && result0.IsSubsetOf(F0) && (*from).Equals(F0.Difference(result0))
+//@ loop 0 in (*cpuAllocator).allocateCpus at "range options"
+//@   modifies a.prefer, a.flags
